@@ -1,7 +1,11 @@
-(* driver.ml — runs the extracted model and specification on one operation per
-   line (same protocol as the Rust harness) and prints
-       <model outcome> TAB <spec: allowed outcomes separated by '|'>
-   Hand-written glue: hex <-> extracted Z, tokenising, dispatch, printing. *)
+(* driver.ml — runs the extracted model and specification.
+   stdin : one case per line   "<op line>\t<implementation outcome>"
+   stdout: one verdict per line
+           "<model outcome>\t<corr>\t<acc>\t<known>"
+     corr  = 1 iff implementation outcome = model outcome        (correspondence)
+     acc   = 1 iff the specification accepts the implementation outcome (oracle)
+     known = tag of the known-finding class the input belongs to, or "-"
+   Hand-written glue only: hex <-> extracted Z, tokenising, dispatch, printing. *)
 open Model
 
 (* ---- hex <-> Z (extracted inductive positive / z) ---- *)
@@ -43,7 +47,6 @@ let z_of_int (i : int) : z =
     if i > 0 then Zpos (pos i) else Zneg (pos (-i))
 
 let hex_of_pos (p : positive) : string =
-  (* bits, least significant first *)
   let rec bits p acc = match p with XH -> 1 :: acc | XO q -> bits q (0 :: acc) | XI q -> bits q (1 :: acc) in
   let msb_first = bits p [] in
   let n = List.length msb_first in
@@ -66,51 +69,138 @@ let hex_of_z (x : z) : string =
 
 let rec int_of_pos p = match p with XH -> 1 | XO q -> 2 * int_of_pos q | XI q -> (2 * int_of_pos q) + 1
 let int_of_z x = match x with Z0 -> 0 | Zpos p -> int_of_pos p | Zneg p -> - int_of_pos p
-let dec_of_z x = string_of_int (int_of_z x) (* only for small values *)
+let zd s = z_of_int (int_of_string s)  (* small decimal argument *)
 
-(* ---- printing outcomes ---- *)
-let out_dec d = "V " ^ hex_of_z d.coeff ^ " " ^ dec_of_z d.nfd
-let out_res f r = match r with Val a -> f a | Panic -> "P" | UB -> "UB"
-let out_opt f o = match o with Some a -> f a | None -> "N"
-let out_sig f o = match o with Some a -> f a | None -> "P"
-let out_z x = "I " ^ hex_of_z x
-let out_smallz x = "I " ^ dec_of_z x
-let out_pair (q, r) = "Q " ^ hex_of_z q ^ " " ^ hex_of_z r
-let out_bool b = if b then "B 1" else "B 0"
+(* ---- outcomes ---- *)
+let ekinds =
+  [ ("empty", 1); ("invalid", 2); ("fraclimit", 3); ("poverflow", 4);
+    ("maxfrac", 11); ("overflow", 12); ("inf", 13); ("nan", 14); ("divzero", 15);
+    ("notint", 21); ("range", 22) ]
+let ekind_of_string s = z_of_int (List.assoc s ekinds)
+let string_of_ekind k =
+  let i = int_of_z k in
+  try fst (List.find (fun (_, v) -> v = i) ekinds) with Not_found -> string_of_int i
+
+let bytes_of_hex s =
+  if s = "-" then []
+  else List.init (String.length s / 2) (fun i -> z_of_int ((hexval s.[2 * i] * 16) + hexval s.[(2 * i) + 1]))
+let hex_of_bytes l =
+  if l = [] then "-" else String.concat "" (List.map (fun b -> Printf.sprintf "%02x" (int_of_z b)) l)
+
+let print_out (o : out) : string =
+  match o with
+  | OV d -> "V " ^ hex_of_z d.coeff ^ " " ^ string_of_int (int_of_z d.nfd)
+  | ON -> "N"
+  | OP -> "P"
+  | OE k -> "E " ^ string_of_ekind k
+  | OB b -> if b then "B 1" else "B 0"
+  | OO None -> "O none"
+  | OO (Some Lt) -> "O lt"
+  | OO (Some Eq) -> "O eq"
+  | OO (Some Gt) -> "O gt"
+  | OI x -> "I " ^ hex_of_z x
+  | OQ (a, b) -> "Q " ^ hex_of_z a ^ " " ^ hex_of_z b
+  | OS s -> "S " ^ hex_of_bytes s
+  | OF b -> "F " ^ hex_of_z b
+  | OUB -> "UB"
+  | OFuel -> "FUEL"
+  | OX -> "X"
+
+let parse_out (s : string) : out =
+  match List.filter (fun t -> t <> "") (String.split_on_char ' ' s) with
+  | [ "V"; c; p ] -> OV { coeff = z_of_hex c; nfd = zd p }
+  | [ "N" ] -> ON
+  | [ "P" ] -> OP
+  | [ "E"; k ] -> OE (ekind_of_string k)
+  | [ "B"; b ] -> OB (b = "1")
+  | [ "O"; "none" ] -> OO None
+  | [ "O"; "lt" ] -> OO (Some Lt)
+  | [ "O"; "eq" ] -> OO (Some Eq)
+  | [ "O"; "gt" ] -> OO (Some Gt)
+  | [ "I"; x ] -> OI (z_of_hex x)
+  | [ "Q"; a; b ] -> OQ (z_of_hex a, z_of_hex b)
+  | [ "S"; h ] -> OS (bytes_of_hex h)
+  | [ "F"; b ] -> OF (z_of_hex b)
+  | _ -> OX
 
 let mode_of_int i =
   match i with
   | 0 -> R05Up | 1 -> RCeiling | 2 -> RDown | 3 -> RFloor
   | 4 -> RHalfDown | 5 -> RHalfEven | 6 -> RHalfUp | _ -> RUp
 
-let mkd c p = { coeff = z_of_hex c; nfd = z_of_int (int_of_string p) }
+let binop_of_string s =
+  match s with
+  | "add" -> Badd | "sub" -> Bsub | "mul" -> Bmul | "div" -> Bdiv | "rem" -> Brem
+  | "cadd" -> Bcadd | "csub" -> Bcsub | "cmul" -> Bcmul | "cdiv" -> Bcdiv | "crem" -> Bcrem
+  | "divr" -> Bdivr | "mulr" -> Bmulr | "quant" -> Bquant
+  | "eq" -> Beq | "ne" -> Bne | "lt" -> Blt | "le" -> Ble | "gt" -> Bgt | "ge" -> Bge
+  | "cmp" -> Bcmp | "pcmp" -> Bpcmp | "min" -> Bmin | "max" -> Bmax
+  | _ -> failwith "binop"
 
-let split_op s =
-  match String.split_on_char '.' s with
-  | [ a ] -> (a, "", "")
-  | [ a; b ] -> (a, b, "")
-  | a :: b :: c :: _ -> (a, b, c)
-  | [] -> ("", "", "")
+let ity_of_string s =
+  match s with
+  | "u8" -> U8 | "i8" -> I8 | "u16" -> U16 | "i16" -> I16 | "u32" -> U32 | "i32" -> I32
+  | "u64" -> U64 | "i64" -> I64 | "u128" -> U128 | "i128" -> I128
+  | _ -> failwith "ity"
 
-(* returns (model outcome, spec outcome) *)
-let run (pf : profile) (line : string) : string * string =
+let kop_of_string s =
+  match s with
+  | "i256" -> Ki256 | "sdmf" -> Ksdmf | "divr" -> Kdivr | "sdr" -> Ksdr | "mdr" -> Kmdr
+  | "dmf" -> Kdmf | "mag" -> Kmag | "mulw" -> Kmulw | "idiv" -> Kidiv
+  | _ -> failwith "kop"
+
+let mkd c p = { coeff = z_of_hex c; nfd = zd p }
+
+(* returns (model outcome, spec accepts impl, known tag) *)
+let run (pf : profile) (line : string) (impl : out) : out * bool * string =
   let t = Array.of_list (List.filter (fun s -> s <> "") (String.split_on_char ' ' line)) in
-  let fam, op, ty = split_op t.(0) in
+  let parts = Array.of_list (String.split_on_char '.' t.(0)) in
+  let fam = parts.(0) in
+  let op = if Array.length parts > 1 then parts.(1) else "" in
+  let ty = if Array.length parts > 2 then parts.(2) else "" in
   let m = mode_of_int (int_of_string t.(1)) in
   let a k = t.(2 + k) in
-  let zi k = z_of_int (int_of_string (a k)) in
-  ignore ty;
-  match (fam, op) with
-  | "un", "round" ->
+  let has k = Array.length t > 2 + k in
+  let nn k = if has k then zd (a k) else Z0 in
+  match fam with
+  | "dd" ->
+      let b = binop_of_string op in
+      let x = mkd (a 0) (a 1) and y = mkd (a 2) (a 3) and n = nn 4 in
+      (run_dd pf m b x y n, acc_dd m b x y n impl, "-")
+  | "di" ->
+      let b = binop_of_string op in
+      let x = mkd (a 0) (a 1) and i = z_of_hex (a 2) and n = nn 3 in
+      (run_di pf m b (ity_of_string ty) x i n, acc_di m b x i n impl, if known_K1 b n then "K1" else "-")
+  | "id" ->
+      let b = binop_of_string op in
+      let i = z_of_hex (a 0) and y = mkd (a 1) (a 2) and n = nn 3 in
+      (run_id pf m b (ity_of_string ty) i y n, acc_id m b i y n impl, if known_K1 b n then "K1" else "-")
+  | "ii" ->
+      let b = binop_of_string op in
+      let i = z_of_hex (a 0) and j = z_of_hex (a 1) and n = nn 2 in
+      (run_ii pf m b i j n, acc_ii m b i j n impl, if known_K1 b n then "K1" else "-")
+  | "un" ->
       let d = mkd (a 0) (a 1) in
-      (out_res out_dec (dec_round pf m d (zi 2)), out_sig out_dec (round_spec m d (zi 2)))
-  | "un", "cround" ->
-      let d = mkd (a 0) (a 1) in
-      (out_res (out_opt out_dec) (dec_checked_round pf m d (zi 2)), out_opt out_dec (round_spec m d (zi 2)))
-  | "w", "divr" ->
-      let n = z_of_hex (a 0) and d = z_of_hex (a 1) in
-      (out_res out_z (i128_div_rounded pf n d m), out_z (rndq m n d))
-  | _ -> ("X", "X")
+      let u =
+        match op with
+        | "round" -> Uround | "cround" -> Ucround | "floor" -> Ufloor | "ceil" -> Uceil
+        | "trunc" -> Utrunc | "fract" -> Ufract | "abs" -> Uabs | "neg" -> Uneg | "mag" -> Umag
+        | "iszero" -> Uiszero | "isone" -> Uisone | "isneg" -> Uisneg | "ispos" -> Uispos
+        | "toint" -> Utoint (ity_of_string ty)
+        | _ -> failwith "unop"
+      in
+      let n = nn 2 in
+      (run_un pf m u d n, acc_un m u d n impl, "-")
+  | "cv" -> (
+      match op with
+      | "fromint" -> let i = z_of_hex (a 0) in (run_fromint i, acc_fromint i impl, "-")
+      | "fromu128" -> let u = z_of_hex (a 0) in (run_fromu128 u, acc_fromu128 u impl, "-")
+      | _ -> failwith "cv")
+  | "w" ->
+      let k = kop_of_string op in
+      let g i = if has i then z_of_hex (a i) else Z0 in
+      (run_k pf m k (g 0) (g 1) (g 2), acc_k m k (g 0) (g 1) (g 2) impl, "-")
+  | _ -> failwith "family"
 
 let () =
   let pf = if Array.length Sys.argv > 1 && Sys.argv.(1) = "release" then release else dev in
@@ -119,10 +209,16 @@ let () =
       let line = input_line stdin in
       if line = "" || line.[0] = '#' then print_endline "#"
       else begin
-        let mo, sp = try run pf line with e -> ("X! " ^ Printexc.to_string e, "X!") in
-        print_string mo;
-        print_char '\t';
-        print_endline sp
+        let opl, impl_s =
+          match String.index_opt line '\t' with
+          | Some i -> (String.sub line 0 i, String.sub line (i + 1) (String.length line - i - 1))
+          | None -> (line, "X")
+        in
+        match (try Ok (run pf opl (parse_out impl_s)) with e -> Error (Printexc.to_string e)) with
+        | Ok (mo, acc, known) ->
+            let corr = out_eqb mo (parse_out impl_s) in
+            Printf.printf "%s\t%d\t%d\t%s\n" (print_out mo) (if corr then 1 else 0) (if acc then 1 else 0) known
+        | Error e -> Printf.printf "X! %s\t0\t0\t-\n" e
       end
     done
   with End_of_file -> ()
